@@ -192,7 +192,6 @@ func extraC20ScannerNotResumed(c *Ctx, r *Report) {
 		Old: "	for scanner.Scan() {\n", New: "	for scanner.Scan() || (scanner.Err() != nil && scanner.Scan()) {\n"})
 }
 
-
 // ---------- C02-R19: pooled stream state is reset completely (the rule of C13-R7 under its C02 name) ----------
 func init() {
 	registerExtra("C02", func(c *Ctx, r *Report) {
@@ -408,6 +407,7 @@ func extraC05AnswerAlwaysRelayed(c *Ctx, r *Report) {
 	addMutants(Mutant{Prop: "C05", Name: "olla-gateway-timeout-answer-becomes-error", File: "internal/adapter/proxy/olla/service_retry.go", Rule: "C05-R19",
 		Old: "	rlog.Debug(\"round-trip success\", \"status\", resp.StatusCode)\n", New: "	rlog.Debug(\"round-trip success\", \"status\", resp.StatusCode)\n	if resp.StatusCode == http.StatusGatewayTimeout {\n		return fmt.Errorf(\"backend %s timed out upstream\", endpoint.Name)\n	}\n"})
 }
+
 var _ = fmt.Sprintf
 
 // ---------- C03-R25: what a reload knows about an endpoint's health it knows by URL ----------
@@ -480,4 +480,253 @@ func extraC03ReloadStatusByURL(c *Ctx, r *Report) {
 	addMutants(Mutant{Prop: "C03", Name: "first-load-starts-healthy", File: "internal/adapter/discovery/repository.go", Rule: "C03-R25",
 		Old: "			Status:                domain.StatusUnknown,\n", New: "			Status:                initialStatus(len(r.endpoints)),\n",
 		Edits: []Edit{{"internal/adapter/discovery/repository.go", "// resolveURLDefaults determines", "func initialStatus(known int) domain.EndpointStatus {\n	if known == 0 {\n		return domain.StatusHealthy\n	}\n	return domain.StatusUnknown\n}\n\n// resolveURLDefaults determines"}}})
+}
+
+// ---------- C07-R26 / C03-R26: a check never reports `unknown` for an endpoint it has probed ----------
+func init() {
+	registerExtra("C07", func(c *Ctx, r *Report) { extraCheckNeverReportsUnknown(c, r, "C07-R26") })
+	registerExtra("C03", func(c *Ctx, r *Report) { extraCheckNeverReportsUnknown(c, r, "C03-R26") })
+}
+
+func extraCheckNeverReportsUnknown(c *Ctx, r *Report, rule string) {
+	r.Rule(rule, "the statuses (*HealthClient).Check itself writes into the result it returns — the circuit-open answer, the recovered panic, whatever it builds when the round is cancelled between two attempts — are constants other than `unknown`; everything else is the classification of a probe (performSingleCheck). The checker stores a result's status as it is and runs the recovery callback only for a record whose previous status is not `unknown`: an interrupted check reported as `unknown` leaves a failed endpoint neither offline nor, once it answers again, re-discovered", 2)
+	chk := c.Fn(pkgHealth, "(*HealthClient).Check")
+	if chk == nil {
+		r.Unresolved(rule, "(*HealthClient).Check")
+		return
+	}
+	n := 0
+	eachInstrDeep(chk, func(f *ssa.Function, in ssa.Instruction) {
+		st, ok := in.(*ssa.Store)
+		if !ok || !isField(st.Addr, pkgDomain, "HealthCheckResult", "Status") {
+			return
+		}
+		n++
+		key := fmt.Sprintf("%s:status-written-%d", fname(chk), n)
+		k, isK := stripConv(st.Val).(*ssa.Const)
+		switch {
+		case !isK:
+			r.OK(rule, key, in.Pos(), "a computed status")
+		case k.Value != nil && strings.Trim(k.Value.ExactString(), "\"") == "unknown":
+			r.Bad(rule, key, in.Pos(), "the check reports the status `unknown` for an endpoint it has just tried to reach: the repository stores it as it is, so a failed endpoint is not marked offline and its later recovery does not trigger model re-discovery")
+		default:
+			r.OK(rule, key, in.Pos(), "a definite status ("+strings.Trim(k.Value.ExactString(), "\"")+")")
+		}
+	})
+	if n == 0 {
+		r.Undecided(rule, "status-writes", token.NoPos, "Check writes no status of its own")
+	}
+	if rule == "C07-R26" {
+		addMutants(Mutant{Prop: "C07", Name: "circuit-open-answer-unknown", File: "internal/adapter/health/client.go", Rule: "C07-R26",
+			Old: "			Status:     domain.StatusOffline,\n			Error:      ErrCircuitBreakerOpen,\n", New: "			Status:     domain.StatusUnknown,\n			Error:      ErrCircuitBreakerOpen,\n"})
+	} else {
+		addMutants(Mutant{Prop: "C03", Name: "recovered-panic-answer-unknown", File: "internal/adapter/health/client.go", Rule: "C03-R26",
+			Old: "				Status:     domain.StatusOffline,\n				Error:      err,\n", New: "				Status:     domain.StatusUnknown,\n				Error:      err,\n"})
+	}
+}
+
+// ---------- C17-R17: the client's identity never includes its source port ----------
+func init() { registerExtra("C17", extraC17ClientKeyWithoutPort) }
+
+func extraC17ClientKeyWithoutPort(c *Ctx, r *Report) {
+	r.Rule("C17-R17", "util.GetClientIP (the key of the per-IP bucket) and the helpers it calls hand back the raw Request.RemoteAddr — host:port, the port changing with every TCP connection — only where net.SplitHostPort on that address has failed: wherever the split succeeded the answer is derived from the host part. A fallback that returns RemoteAddr although the split worked (the host did not parse as an IP: every zoned link-local IPv6 peer) gives each connection of one client a bucket of its own, so the client is admitted burst × connections", 3)
+	gc := c.Fn("internal/util", "GetClientIP")
+	if gc == nil {
+		r.Unresolved("C17-R17", "util.GetClientIP")
+		return
+	}
+	isRemoteAddr := func(v ssa.Value) bool {
+		ld, ok := stripConv(v).(*ssa.UnOp)
+		return ok && ld.Op == token.MUL && isField(ld.X, "net/http", "Request", "RemoteAddr")
+	}
+	splitFailed := func(facts []condFact) bool {
+		for _, cf := range facts {
+			bo, ok := cf.Cond.(*ssa.BinOp)
+			if !ok || !isNilConst(bo.Y) {
+				continue
+			}
+			ex, ok := bo.X.(*ssa.Extract)
+			if !ok {
+				continue
+			}
+			call, ok := ex.Tuple.(*ssa.Call)
+			if !ok {
+				continue
+			}
+			if ci := describeCall(&call.Call); ci.Pkg != "net" || ci.Name != "SplitHostPort" || !isRemoteAddr(call.Call.Args[0]) {
+				continue
+			}
+			if (bo.Op == token.NEQ && cf.True) || (bo.Op == token.EQL && !cf.True) {
+				return true
+			}
+		}
+		return false
+	}
+	n := 0
+	for _, g := range withHelpers(gc, 2) {
+		res := g.Signature.Results()
+		for i := 0; i < res.Len(); i++ {
+			if b, ok := res.At(i).Type().Underlying().(*types.Basic); !ok || b.Kind() != types.String {
+				continue
+			}
+			for _, vr := range virtualReturns(g, i) {
+				if !isRemoteAddr(vr.Val) {
+					continue
+				}
+				n++
+				key := fmt.Sprintf("%s:raw-remote-addr-%d", fname(gc), n)
+				facts := append(append([]condFact{}, vr.Facts...), condFacts(vr.Ret.Block())...)
+				if splitFailed(facts) {
+					r.OK("C17-R17", key, retPos(g, vr.Ret), "raw RemoteAddr only where SplitHostPort failed")
+				} else {
+					r.Bad("C17-R17", key, retPos(g, vr.Ret), "the raw RemoteAddr (host:port) can be returned although net.SplitHostPort succeeded: the rate limiter's key then contains the client's source port, so every new TCP connection of one client starts a fresh bucket")
+				}
+			}
+		}
+	}
+	if n == 0 {
+		r.Undecided("C17-R17", "raw-remote-addr", token.NoPos, "GetClientIP never returns Request.RemoteAddr")
+	}
+	addMutants(Mutant{Prop: "C17", Name: "loopback-peers-keyed-by-connection", File: "internal/util/request.go", Rule: "C17-R17",
+		Old: "	if !trustProxyHeaders {\n		if ip, _, err := net.SplitHostPort(r.RemoteAddr); err == nil {\n			return ip\n		}\n", New: "	if !trustProxyHeaders {\n		if ip, _, err := net.SplitHostPort(r.RemoteAddr); err == nil && !strings.HasPrefix(ip, \"127.\") {\n			return ip\n		}\n"})
+}
+
+// inCycle: the block lies on a cycle of its function's control-flow graph (it is part of a loop).
+func inCycle(b *ssa.BasicBlock) bool {
+	seen := map[*ssa.BasicBlock]bool{}
+	work := append([]*ssa.BasicBlock{}, b.Succs...)
+	for len(work) > 0 {
+		x := work[len(work)-1]
+		work = work[:len(work)-1]
+		if x == b {
+			return true
+		}
+		if seen[x] {
+			continue
+		}
+		seen[x] = true
+		work = append(work, x.Succs...)
+	}
+	return false
+}
+
+// ---------- C18-R20: no absolute deadline on the client side of a stream ----------
+func init() { registerExtra("C18", extraC18NoAbsoluteWriteDeadline) }
+
+func extraC18NoAbsoluteWriteDeadline(c *Ctx, r *Report) {
+	r.Rule("C18-R20", "in the proxy engines, the translator and the handlers a deadline on the client connection ((*http.ResponseController).SetWriteDeadline / SetReadDeadline, net.Conn.Set*Deadline) with a non-zero time is only set inside the streaming loop, where it is renewed for every write: a deadline is a point in time, not an idle timeout, so one set once before the loop cuts every stream that lasts longer than the timeout in total — although the backend never paused for that long and the stream would have completed", 0)
+	n := 0
+	for _, f := range c.Funcs {
+		pp := fnPkgPath(f)
+		if f.Blocks == nil || !c.inRepo(f) || !(strings.Contains(pp, "/adapter/proxy") || strings.Contains(pp, "/adapter/translator") || strings.HasSuffix(pp, pkgHandlers)) {
+			continue
+		}
+		eachInstr(f, func(in ssa.Instruction) {
+			cc := getCall(in)
+			if cc == nil {
+				return
+			}
+			name := ""
+			if cc.IsInvoke() {
+				name = cc.Method.Name()
+			} else {
+				name = describeCall(cc).Name
+			}
+			if name != "SetWriteDeadline" && name != "SetReadDeadline" && name != "SetDeadline" {
+				return
+			}
+			args := cc.Args
+			t := args[len(args)-1]
+			// the zero time clears a deadline
+			if ld, ok := t.(*ssa.UnOp); ok {
+				if al, ok := ld.X.(*ssa.Alloc); ok {
+					stored := false
+					for _, ref := range *al.Referrers() {
+						if _, ok := ref.(*ssa.Store); ok {
+							stored = true
+						}
+					}
+					if !stored {
+						return
+					}
+				}
+			}
+			if k, ok := t.(*ssa.Const); ok && k.Value == nil {
+				return
+			}
+			n++
+			key := fmt.Sprintf("%s:%s-renewed", fname(f), name)
+			if inCycle(in.Block()) {
+				r.OK("C18-R20", key, in.Pos(), "the deadline is renewed inside the loop")
+			} else {
+				r.Bad("C18-R20", key, in.Pos(), "a deadline on the client connection is set once, outside the streaming loop: it is an absolute point in time, so every stream longer than the timeout is cut although no pause ever reached the timeout")
+			}
+		})
+	}
+	_ = n
+	addMutants(Mutant{Prop: "C18", Name: "olla-write-deadline-set-once", File: "internal/adapter/proxy/olla/service.go", Rule: "C18-R20",
+		Old: "	rc := http.NewResponseController(w)\n", New: "	rc := http.NewResponseController(w)\n	_ = rc.SetWriteDeadline(time.Now().Add(s.configuration.GetResponseTimeout()))\n"})
+}
+
+// ---------- C19-R21: a request outcome reaches the statistics from one place only ----------
+func init() { registerExtra("C19", extraC19OneReporter) }
+
+func extraC19OneReporter(c *Ctx, r *Report) {
+	r.Rule("C19-R21", "the methods of the statistics collector that count a request (RecordRequest and every method of *stats.Collector that calls it, such as RecordModelRequest) are invoked only by the engines' recorder — core.BaseProxyComponents.RecordSuccess / RecordFailure, once per attempt (C19-R2) — and inside the collector itself. A second reporter (a handler 'wiring up' an unused port method after the engine returned) counts every request with a model twice: recorded successes no longer equal the responses clients received", 2)
+	var rr *ssa.Function
+	for _, f := range c.Funcs {
+		if strings.HasSuffix(fnPkgPath(f), "/adapter/stats") && f.Name() == "RecordRequest" && f.Signature.Recv() != nil && strings.HasSuffix(f.Signature.Recv().Type().String(), "stats.Collector") {
+			rr = f
+		}
+	}
+	if rr == nil {
+		r.Unresolved("C19-R21", "(*stats.Collector).RecordRequest")
+		return
+	}
+	counting := map[string]bool{"RecordRequest": true}
+	for _, f := range c.Funcs {
+		if f.Pkg != rr.Pkg || f.Signature.Recv() == nil || f.Signature.Recv().Type().String() != rr.Signature.Recv().Type().String() || f == rr {
+			continue
+		}
+		if containsCall(c, f, 1, func(cc *ssa.CallCommon) bool { return cc.StaticCallee() == rr }) {
+			counting[f.Name()] = true
+		}
+	}
+	n := 0
+	for _, f := range c.Funcs {
+		if f.Blocks == nil || !c.inRepo(f) || f.Pkg == rr.Pkg {
+			continue
+		}
+		eachInstr(f, func(in ssa.Instruction) {
+			cc := getCall(in)
+			if cc == nil {
+				return
+			}
+			name := ""
+			if cc.IsInvoke() {
+				if !strings.HasSuffix(cc.Value.Type().String(), "ports.StatsCollector") {
+					return
+				}
+				name = cc.Method.Name()
+			} else if sc := cc.StaticCallee(); sc != nil && sc.Pkg == rr.Pkg && sc.Signature.Recv() != nil && sc.Signature.Recv().Type().String() == rr.Signature.Recv().Type().String() {
+				name = sc.Name()
+			}
+			if !counting[name] {
+				return
+			}
+			n++
+			owner := topParent(f)
+			key := fmt.Sprintf("%s:%s", fname(owner), name)
+			if strings.HasSuffix(fnPkgPath(owner), "/adapter/proxy/core") && (owner.Name() == "RecordSuccess" || owner.Name() == "RecordFailure") {
+				r.OK("C19-R21", key, in.Pos(), "reported by the engines' recorder")
+			} else {
+				r.Bad("C19-R21", key, in.Pos(), "a request outcome is reported to the statistics collector outside the engines' recorder: the attempt has already been counted there, so the request is recorded twice (totals and successes drift away from what clients received)")
+			}
+		})
+	}
+	if n == 0 {
+		r.Undecided("C19-R21", "reporters", token.NoPos, "nobody reports request outcomes to the statistics collector")
+	}
+	addMutants(Mutant{Prop: "C19", Name: "logging-tail-reports-the-request-again", File: "internal/app/handlers/handler_proxy.go", Rule: "C19-R21",
+		Old: "func (a *Application) logRequestResult(pr *proxyRequest, err error) {\n", New: "func (a *Application) logRequestResult(pr *proxyRequest, err error) {\n	if err == nil && a.statsCollector != nil {\n		a.statsCollector.RecordRequest(nil, \"success\", time.Since(pr.stats.StartTime), int64(pr.stats.TotalBytes))\n	}\n"})
 }
